@@ -246,15 +246,51 @@ func ProtectSlice(what string, s []interface{}) {
 	frames = append(frames, &frameRec{what: what, ref: reflect.ValueOf(full), snap: snap})
 }
 
-// Protect marks everything reachable from x read-only (engine); natively only slices of any are tracked.
+// Protect marks everything reachable from x read-only (engine); natively slices of any and maps are tracked
+// (maps: same key set, and each entry prints the same with %v, which includes function addresses).
 func Protect(what string, x interface{}) {
 	if s, ok := x.([]interface{}); ok {
 		ProtectSlice(what, s)
+		return
+	}
+	rv := reflect.ValueOf(x)
+	if rv.IsValid() && rv.Kind() == reflect.Map {
+		snap := map[string]string{}
+		for _, k := range rv.MapKeys() {
+			snap[fmt.Sprintf("%v", k.Interface())] = fmt.Sprintf("%v", rv.MapIndex(k).Interface())
+		}
+		mapFrames = append(mapFrames, &mapRec{what: what, ref: rv, snap: snap})
 	}
 }
 
+type mapRec struct {
+	what string
+	ref  reflect.Value
+	snap map[string]string
+}
+
+var mapFrames []*mapRec
+
+// ProtectGlobals marks every package-level variable of the repository (and what it reaches) read-only (engine only;
+// natively the harness protects the specific tables it can name with Protect).
+func ProtectGlobals() {}
+
+// ClockReads reports how many times the code under test read the wall clock so far (engine); natively -1 (unknown).
+func ClockReads() int { return -1 }
+
 // CheckFrames compares the protected regions with their snapshots.
 func CheckFrames() {
+	for _, m := range mapFrames {
+		if m.ref.Len() != len(m.snap) {
+			panic(FrameViolated{m.what + " (size)"})
+		}
+		for _, k := range m.ref.MapKeys() {
+			ks := fmt.Sprintf("%v", k.Interface())
+			if old, ok := m.snap[ks]; !ok || old != fmt.Sprintf("%v", m.ref.MapIndex(k).Interface()) {
+				panic(FrameViolated{m.what + "[" + ks + "]"})
+			}
+		}
+	}
 	for _, f := range frames {
 		for i := 0; i < f.ref.Len(); i++ {
 			cur := f.ref.Index(i).Interface()
